@@ -24,8 +24,10 @@ Definition zcmp (code : Z) (x y : Z) : cres Z :=
            else negb (x =? y) in
   CV Z (if b then 1 else 0).
 
+(* codes >= 100 encode Clamp(lo, hi) with 0 <= lo, hi < 16: 100 + 16*lo + hi *)
 Definition zun (code : Z) (x : Z) : Z :=
-  if code =? 0 then - x
+  if 100 <=? code then Z.min (Z.max x ((code - 100) / 16)) ((code - 100) mod 16)
+  else if code =? 0 then - x
   else if code =? 1 then x * x
   else if code =? 2 then x * x * x
   else if code =? 3 then Z.abs x
@@ -38,6 +40,7 @@ Inductive zop :=
 | ZCmp (code : Z) (a b : nat) (same : bool) (m : cmode) (api : bool)
 | ZCmpS (code : Z) (t : nat) (s : Z) (lft same : bool) (m : cmode)
 | ZUn (code : Z) (a : nat) (m : mode)
+| ZApply (code : Z) (a : nat) (m : mode)        (* Dense.Apply(fn, opts...) = StdEng.Map *)
 | ZReduce (code : Z) (a : nat) (axes : list Z) (refused : bool)     (* 0 sum, 1 min, 2 max *)
 | ZArg (code : Z) (a : nat) (axis : Z) (refused : bool)             (* 0 argmax, 1 argmin; axis -1 = all *)
 | ZStack (t : nat) (axis : Z) (others : list nat)
@@ -79,6 +82,44 @@ Definition zstep_model (σ : store Z) (o : zop) : store Z * outcome Z :=
     else of_oresult σ (eng_cmp_vv Z 0 Z.add (zcmp code) σ a b same m)
   | ZCmpS code t s lft same m => of_oresult σ (eng_cmp_scalar Z 0 Z.add (zcmp code) σ t s lft same m)
   | ZUn code a m => of_oresult σ (eng_unary Z 0 Z.add (zun code) σ a m)
+  | ZApply code a m =>
+    (* StdEng.Map: the function is applied IN PLACE to `used`: the operand itself (unsafe), a
+       Materialize()/Clone() of it (safe), or the reuse/incr tensor's OWN contents (the operand is
+       never read in those modes); a reuse tensor is then reshaped to the operand's shape *)
+    match get_t Z σ a with
+    | None => (σ, RPanic Z)
+    | Some da =>
+      match m with
+      | MUnsafe => of_oresult σ (eng_unary Z 0 Z.add (zun code) σ a MUnsafe)
+      | MSafe =>
+        match (if is_materializable da then m_materialize Z 0 σ a else m_clone Z σ a) with
+        | Ok (σ1, t') => of_oresult σ (eng_unary Z 0 Z.add (zun code) σ1 t' MUnsafe)
+        | Err => (σ, RErr Z)
+        | Panic => (σ, RPanic Z)
+        end
+      | MReuse r | MIncr r =>
+        (* handleFuncOpts: size check, reshape, data-order flag of a plain reuse tensor *)
+        match handle_reuse Z σ r (shp (d_ap da)) (ord (d_ap da)) (match m with MIncr _ => true | _ => false end) with
+        | Err => (σ, RErr Z)
+        | Panic => (σ, RPanic Z)
+        | Ok σh =>
+          match (match m with MIncr _ => eng_unary Z 0 Z.add (zun code) σh r (MIncr r)
+                            | _ => eng_unary Z 0 Z.add (zun code) σh r MUnsafe end) with
+          | (σ1, OOk _) =>
+            match get_t Z σ1 r with
+            | Some dr1 =>
+              match reuse_check_shape dr1 (shp (d_ap da)) with
+              | Some dr2 => (set_t Z σ1 r dr2, RNew Z r)
+              | None => (σ1, RErr Z)
+              end
+            | None => (σ1, RPanic Z)
+            end
+          | (σ1, OErrR) => (σ, RErr Z)
+          | (σ1, OPanicR) => (σ, RPanic Z)
+          end
+        end
+      end
+    end
   | ZReduce code a axes _ =>
     match fst (m_reduce Z 0 (zred code) (code =? 0) σ a axes) with
     | Ok (sh, data) => let '(σ', t) := new_result σ sh data in (σ', RNew Z t)
@@ -187,7 +228,7 @@ Definition zstep_spec (ς : sstate Z) (o : zop) : option (sstate Z * outcome Z) 
         (map (fun v => cres_val (if lft then zcmp code v s else zcmp code s v)) (slogical Z 0 ς x)) (cmode_code m) false
     | None => None
     end
-  | ZUn code a m =>
+  | ZUn code a m | ZApply code a m =>
     match sget Z ς a with
     | Some x =>
       spec_vals_deliver ς a (s_shape x) (map (fun v => Some (zun code v)) (slogical Z 0 ς x)) (mode_code m) (s_cm x)
@@ -323,6 +364,11 @@ Definition zguard (σ : store Z) (o : zop) : gclass :=
     | g => g
     end
   | ZUn _ a m => guard_elementwise (tens [a]) (dst_of m) (rsize [a]) (rshape [a])
+  | ZApply _ a m =>
+    match m with
+    | MReuse _ | MIncr _ => GApplyDest       (* Map never reads the operand in these modes *)
+    | _ => guard_elementwise (tens [a]) (dst_of m) (rsize [a]) (rshape [a])
+    end
   | ZReduce _ a axes _ =>
     match tens [a] with
     | d :: _ =>
